@@ -2806,20 +2806,19 @@ sse_rule_subusl_slow (OrcCompiler *p, void *user, OrcInstruction *insn)
     orc_sse_emit_movdqa (p, src0, dest);
   }
 
-  orc_sse_emit_movdqa (p, src1, tmp2);
-  orc_sse_emit_psrld_imm (p, 1, tmp2);
-
+  /* the borrow out of a - b is the top bit of (~a & b) | (~(a ^ b) & (a - b)) */
   orc_sse_emit_movdqa (p, dest, tmp);
-  orc_sse_emit_psrld_imm (p, 1, tmp);
-  orc_sse_emit_psubd (p, tmp, tmp2);
-
-  /* turn overflow bit into mask */
-  orc_sse_emit_psrad_imm (p, 31, tmp2);
-
-  /* compute the difference, then and over the mask */
+  orc_sse_emit_pxor (p, src1, tmp);
+  orc_sse_emit_movdqa (p, dest, tmp2);
+  orc_sse_emit_pandn (p, src1, tmp2);
   orc_sse_emit_psubd (p, src1, dest);
-  orc_sse_emit_pand (p, tmp2, dest);
+  orc_sse_emit_pandn (p, dest, tmp);
+  orc_sse_emit_por (p, tmp, tmp2);
 
+  /* turn the borrow bit into a mask and clear the lanes that underflowed */
+  orc_sse_emit_psrad_imm (p, 31, tmp2);
+  orc_sse_emit_pandn (p, dest, tmp2);
+  orc_sse_emit_movdqa (p, tmp2, dest);
 }
 
 #ifndef MMX
